@@ -5,3 +5,4 @@ import DefconModel.AllDrivers
 import DefconModel.Props.C04
 import DefconModel.Ident
 import DefconModel.Drivers.Ident
+import DefconModel.Props.C10
